@@ -445,9 +445,9 @@ func (m *mon) c07() {
 		case s.outcome == oErr:
 			want = fmt.Sprintf("err:fail-%d", d)
 		case c.name == "Result":
-			want = fmt.Sprintf("0,err:panic_recovered_inside_result-worker:_boom-%d", d)
+			want = fmt.Sprintf("0,err:panic_recovered_inside_result-worker:_%s", panicText(d))
 		default:
-			want = fmt.Sprintf("err:panic_recovered_inside_err-worker:_boom-%d", d)
+			want = fmt.Sprintf("err:panic_recovered_inside_err-worker:_%s", panicText(d))
 		}
 		if c.res != want {
 			m.add("C07", "wrong-outcome", "%s on d%d returned %q, the worker function produced %q", c.name, d, c.res, want)
@@ -492,11 +492,11 @@ func (m *mon) c08() {
 			case m.e.kind == kResult && s.outcome == oErr:
 				want[fmt.Sprintf("%s:0,err:fail-%d", s.id, s.data)]++
 			case m.e.kind == kResult:
-				want[fmt.Sprintf("%s:0,err:panic_recovered_inside_result-worker:_boom-%d", s.id, s.data)]++
+				want[fmt.Sprintf("%s:0,err:panic_recovered_inside_result-worker:_%s", s.id, panicText(s.data))]++
 			case m.e.kind == kErr && s.outcome == oErr:
 				want[fmt.Sprintf("err:fail-%d", s.data)]++
 			case m.e.kind == kErr && s.outcome == oPanic:
-				want[fmt.Sprintf("err:panic_recovered_inside_err-worker:_boom-%d", s.data)]++
+				want[fmt.Sprintf("err:panic_recovered_inside_err-worker:_%s", panicText(s.data))]++
 			}
 		}
 		got := map[string]int{}
